@@ -111,6 +111,10 @@ impl<T: Types> FlushWorker<T> {
 
     fn run(self) {
         let res = self.run_inner();
+        #[cfg(feature = "verif-hooks")]
+        crate::verif_hooks::emit(crate::verif_hooks::VerifEvent::WorkerExit {
+            ok: res.is_ok(),
+        });
         if let Err(e) = res {
             log::error!("FlushWorker failed: {}", e);
         }
@@ -118,11 +122,18 @@ impl<T: Types> FlushWorker<T> {
 
     fn run_inner(mut self) -> Result<(), io::Error> {
         loop {
+            #[cfg(feature = "verif-hooks")]
+            crate::verif_hooks::emit(crate::verif_hooks::VerifEvent::PreRecv);
             let req = self.rx.recv();
             let Ok(SeqRequest { seq, req }) = req else {
                 log::info!("FlushWorker input channel closed, quit");
                 return Ok(());
             };
+            #[cfg(feature = "verif-hooks")]
+            crate::verif_hooks::emit(crate::verif_hooks::VerifEvent::PostRecv {
+                seq,
+                kind: req.verif_kind(),
+            });
 
             let WorkerRequest::Write(w) = req else {
                 self.handle_non_flush_request(req)?;
@@ -150,6 +161,11 @@ impl<T: Types> FlushWorker<T> {
             }
 
             debug!("batched write: {}", batch.len());
+            #[cfg(feature = "verif-hooks")]
+            crate::verif_hooks::emit(crate::verif_hooks::VerifEvent::Batch {
+                writes: batch.len(),
+                tail: last_non_flush.as_ref().map(|r| r.req.verif_kind()),
+            });
 
             {
                 // TODO: possible to use write_all_vectored()?
